@@ -508,8 +508,15 @@ class Outcome:
             return False
         if self.exc["type"] != "RuntimeError":
             return False
+        # structural, not textual: the error comes out of the handlers module while
+        # create_database / reindex_database is running (rewording the message or moving
+        # the raise into a helper of that module does not change the classification)
         where = self.exc["where"]
-        return bool(where) and where[-1][1] in ("create_database", "reindex_database")
+        return (
+            bool(where)
+            and where[-1][0].endswith("service/handlers.py")
+            and any(w[1] in ("create_database", "reindex_database") for w in where)
+        )
 
 
 def _exc_info(e: BaseException) -> dict:
